@@ -27,6 +27,6 @@ def replay(path):
     if path.endswith('.ndjson'):
         return parts_kernel.replay_trace(PID, path)
     import json
-    if json.load(open(path))['replay'].get('module') in ('MultiGen', 'HOGen'):
+    if json.load(open(path))['replay'].get('module') in ('MultiGen', 'HOGen', 'MultiOddGen'):
         return parts_multi.replay_case(PID, path)
     return pp.replay_case(PID, path)
